@@ -175,6 +175,15 @@ func (hc *HeaderChain) WriteHeader(header *types.Header) (status WriteStatus, er
 	// Second clause in the if statement reduces the vulnerability to selfish mining.
 	// Please refer to http://www.cs.cornell.edu/~ie53/publications/btcProcFC.pdf
 	if externTd.Cmp(localTd) > 0 || (externTd.Cmp(localTd) == 0 && mrand.Float64() < 0.5) {
+		// The ancestry down to the canonical chain must be available: a rewind (SetHead) deletes the
+		// canonical headers but keeps side headers and their total difficulty
+		for ancHash, ancNumber := header.ParentHash, number-1; ancNumber > 0 && GetCanonicalHash(hc.chainDb, ancNumber) != ancHash; ancNumber-- {
+			ancestor := hc.GetHeader(ancHash, ancNumber)
+			if ancestor == nil {
+				return NonStatTy, consensus.ErrUnknownAncestor
+			}
+			ancHash = ancestor.ParentHash
+		}
 		// Delete any canonical number assignments above the new head
 		for i := number + 1; ; i++ {
 			hash := GetCanonicalHash(hc.chainDb, i)
